@@ -364,7 +364,7 @@ pub fn main(twins: &'static [Twin]) {
         let want = match prop.as_str() {
             "C02" => has("wrap"),
             "C11" => has("cap") || has("big"),
-            "C17" => has("big") || has("nest"),
+            "C17" => has("big") || has("nest") || has("clash"),
             // nested spawn macros: inherited thread names `<caller>_join_<i>_join_<j>` (innermost branches log their thread name)
             "C08" => has("nest") && t.tags.contains("spawn"),
             // caller variables named like `let`-named branches: every user expression keeps its call-site meaning
